@@ -533,7 +533,56 @@ func retryClosures(p *core.Prog) []*ssa.Function {
 	return out
 }
 
+// retryClosureUsesAttemptCtx: inside a retry closure every context handed to
+// the call machinery is the attempt's own context (the closure's first
+// parameter, bounded by TimeoutPerAttempt), never the overall context captured
+// from the enclosing function: otherwise the ttl sent, the handler's deadline
+// and the caller's wait are those of the whole request and a stalled peer eats
+// the complete budget.
+func retryClosureUsesAttemptCtx(p *core.Prog, r *core.Report, rule string) {
+	for _, cl := range retryClosures(p) {
+		if len(cl.Params) != 2 {
+			continue
+		}
+		how := ""
+		core.EachInstr(cl, func(i ssa.Instruction) {
+			c, ok := i.(ssa.CallInstruction)
+			if !ok || how != "" {
+				return
+			}
+			for _, a := range core.CallArgs(c) {
+				t := a.Type().String()
+				if !strings.HasSuffix(t, "context.Context") && !strings.HasSuffix(t, ".Context") && !strings.HasSuffix(t, "ContextWithHeaders") {
+					continue
+				}
+				v := core.Strip(a)
+				for d := 0; d < 4; d++ {
+					switch x := v.(type) {
+					case *ssa.ChangeInterface:
+						v = x.X
+						continue
+					case *ssa.MakeInterface:
+						v = x.X
+						continue
+					}
+					break
+				}
+				if u, isU := v.(*ssa.UnOp); isU {
+					if _, isFV := u.X.(*ssa.FreeVar); isFV {
+						how = "the context given to " + calleeShort(c) + " is the enclosing function's (overall) context, not the attempt's"
+					}
+				}
+				if _, isFV := v.(*ssa.FreeVar); isFV {
+					how = "the context given to " + calleeShort(c) + " is the enclosing function's (overall) context, not the attempt's"
+				}
+			}
+		})
+		r.Check(how == "", rule, fname(cl), "calls inside the attempt use the attempt's context", p.Pos(cl.Pos()), "no captured outer context reaches a call", how)
+	}
+}
+
 func c17State(p *core.Prog, r *core.Report) {
+	retryClosureUsesAttemptCtx(p, r, "C17-R4")
 	// every attempt of the library's own retrying clients starts its call with
 	// the attempt's RequestState in the call options (that is how the peers
 	// already tried reach peer selection)
